@@ -28,7 +28,7 @@ ASSUMPTIONS = [
     "byte-content faults only: stream objects that raise, closed streams and vanishing files are outside the statement",
     "termination oracle = CPU budget max(30 s, 300 x fault-free CPU of the base document) enforced with RLIMIT_CPU, and a 90 s wall kill; candidates must reproduce twice alone",
     "address space is capped at +4 GiB per run; MemoryError escaping is reported as a non-family exception like any other",
-    "logging and warnings are silenced in the simulation child: what is on stderr is what the CLI itself printed",
+    "logging and warnings are silenced in the simulation child, except around CLI runs, which get the diagnostics state of a freshly started interpreter (log records >= WARNING reach stderr through logging.lastResort)",
 ]
 COMPONENTS = {"real": ["all 21 extractors and their third-party parsers", "sharepoint2text.read_file", "sharepoint2text.cli.main (in-process)",
                        "archive_extractor member loop", "EmailContent.iterate_supported_attachments"],
